@@ -21,6 +21,8 @@ LABEL_SETS = [
     ["O1", "A"],                            # label equal to a generated unit-operation name
     ["A/O1", "A"],
     ["O1/O1", "O1"],
+    ["A", "A/O1", "A/O2"],                  # two consecutive generated names taken: the search must loop
+    ["A/O2", "A", "A/O3", "A/O1", "A/O5"],
     ["A/B", "C/A/B", "B"],
     ["X/Y/Z/W", "Y/Z/W", "X"],
     ["A ", " A/ B", "A/B"],                 # stray blanks around components
